@@ -74,6 +74,9 @@ def deviations(sched: List[Dict[str, Any]], bound: int, tier: str) -> List[List[
         # a receiver resets its connection right before this round: the manager finds out while it is writing (a data frame, or -
         # together with a clock tick - one of its own reports); the others' streams stay whole and gap-free
         singles.append(("die", i, 2))  # ... right before the manager's 2nd send call of the round (found on the write side)
+        # two receivers reset at the same instant (both listen for departures, as do two survivors): the second is found dead while
+        # the first one's departure is being announced - every survivor hears of the two in the same order
+        singles.append(("die2", i, 1))
     # ... also in the final round, in which only the manager's own timers write
     for k in (1, 2, 3, 5):
         singles.append(("die", len(sched), k))
@@ -99,6 +102,8 @@ def deviations(sched: List[Dict[str, Any]], bound: int, tier: str) -> List[List[
                     st["cong"] = st.get("cong", []) + [arg]
                 elif kind == "die":
                     st["die"] = st.get("die", []) + [arg]
+                elif kind == "die2":
+                    st["die2"] = arg
                 else:
                     st["nw"] = st.get("nw", []) + [arg]
             res.append(s2)
@@ -183,6 +188,10 @@ def execute(case) -> Dict[str, Any]:
                      ("R2", P.MT_FAILED_MESSAGE)):
             w.clients[s].send(P.mkframe(P.MT_SUBSCRIBE, P.p_sub(t), timecode=tc, src_mod_id=IDS[s]))
         w.settle()
+        if any(st.get("die2") for st in sched):
+            for s_ in ("R1", "K"):
+                w.clients[s_].send(P.mkframe(P.MT_SUBSCRIBE, P.p_sub(P.MT_CLIENT_CLOSED), timecode=tc, src_mod_id=IDS[s_]))
+            w.settle()
         collect()
         sent = [0, 0]
         for st in sched:
@@ -215,6 +224,8 @@ def execute(case) -> Dict[str, Any]:
             for k in st.get("die", []):
                 if not w.clients["R2"].gone:
                     w.kill_plan = (k, [w.clients["R2"]], "rst")
+            if st.get("die2") and not w.clients["R2"].gone and not w.clients["R1"].gone:
+                w.kill_plan = (st["die2"], [w.clients["R1"], w.clients["R2"]], "rst")
             w.step(order, st.get("nw", []))
             w.kill_plan = None
             for slot in st.get("cong", []):
@@ -251,7 +262,22 @@ def execute(case) -> Dict[str, Any]:
         ob = [x for x in all_seen[b] if x in common]
         if oa != ob:
             i = next(k for k, (x, y) in enumerate(zip(oa, ob)) if x != y)
-            problems.append({"kind": "cross-receiver-order-any-origin", "a": a, "b": b, "first_difference": [list(oa[i][:4]), list(ob[i][:4])],
+            # which kind of pair is out of order? among the manager's own messages / among clients' messages / a notice the manager
+            # publishes from INSIDE a delivery (the departure or failure it has just run into) against the message being delivered
+            mgr_a, mgr_b = [x for x in oa if x[0] == 0], [x for x in ob if x[0] == 0]
+            cli_a, cli_b = [x for x in oa if x[0] != 0], [x for x in ob if x[0] != 0]
+            nested = (P.MT_CLIENT_CLOSED, P.MT_FAILED_MESSAGE) + tuple(P.LOG_TYPES)
+            pos_a, pos_b = {x: k for k, x in enumerate(oa)}, {x: k for k, x in enumerate(ob)}
+            mixed_other = [(x, y) for x in mgr_a for y in cli_a if (pos_a[x] < pos_a[y]) != (pos_b[x] < pos_b[y]) and x[1] not in nested]
+            if mgr_a != mgr_b:
+                kind = "cross-receiver-order-among-manager-messages"
+            elif cli_a != cli_b:
+                kind = "cross-receiver-order-any-origin"
+            elif mixed_other:
+                kind = "cross-receiver-order-report-vs-message"
+            else:
+                kind = "cross-receiver-order-notice-inside-a-delivery"
+            problems.append({"kind": kind, "a": a, "b": b, "first_difference": [list(oa[i][:4]), list(ob[i][:4])],
                              "types_a": [x[1] for x in oa][:12], "types_b": [x[1] for x in ob][:12]})
     sig = tuple(tuple(data_seen[s]) for s in ("R1", "R2", "L", "K", "E"))
     return {"problems": problems, "frames": nframes, "kinds": sorted(kinds), "sig": hash(sig),
